@@ -141,11 +141,18 @@ def batch_arrays(cfg, cands, noobj, container):
             obj = np.array(obj, dtype=dtype)
         if "es" in fields:
             fields["es"] = np.array(fields["es"], dtype=np.float64)
-    elif container == "f64":
+    elif container in ("f64", "wide"):
         sol = np.array(sol, dtype=np.float64)
         meas = np.array(meas, dtype=np.float64)
         if obj is not None:
             obj = np.array(obj, dtype=np.float64)
+            if container == "wide" and dtype == np.float32:
+                # float64 objectives that are NOT float32 values but round to the intended ones: everything the archive reports must
+                # be computed from the stored (cast) objective
+                pert = np.array([1.0 + (2.0 ** -30 if c[0] % 2 == 0 else -(2.0 ** -30)) for c in cands])
+                wide = obj * pert
+                assert np.array_equal(wide.astype(np.float32), obj.astype(np.float32))
+                obj = wide
     return sol, obj, meas, fields
 
 
@@ -160,6 +167,37 @@ def info_out(cfg, info):
             (np.asarray(val).dtype.name if cfg["lc"] else "")]
 
 
+def stats_problem(a, hist_scale=0.0):
+    """C06 on a ProximityArchive: the statistics and best_elite must agree with the contents after every operation (the archive is elitist:
+    entries are only ever replaced by strictly better ones). Returns a message or None."""
+    st, d = a.stats, a.data()
+    objs = np.asarray(d["objective"], dtype=np.float64)
+    n = len(objs)
+    be = a.best_elite
+    if st.num_elites != n or len(a) != n:
+        return "stats.num_elites = %r, len = %r, but data() has %d entries" % (st.num_elites, len(a), n)
+    if n == 0:
+        if be is not None or st.obj_max is not None or float(st.qd_score) != 0.0:
+            return "empty archive but best_elite = %r, obj_max = %r, qd_score = %r" % (be, st.obj_max, st.qd_score)
+        return None
+    # the running sum is updated incrementally, so its rounding error scales with everything that was ever added or subtracted
+    tol = (1e-4 if d["objective"].dtype == np.float32 else 1e-10) * (float(np.sum(np.abs(objs))) + 2.0 * hist_scale + abs(float(a.qd_score_offset)) * n + 1.0)
+    want_qd = float(np.sum(objs - float(a.qd_score_offset)))
+    if abs(float(st.qd_score) - want_qd) > tol:
+        return "stats.qd_score = %r but the contents give %r" % (float(st.qd_score), want_qd)
+    if float(st.obj_max) != float(np.max(objs)):
+        return "stats.obj_max = %r but the largest stored objective is %r" % (float(st.obj_max), float(np.max(objs)))
+    if abs(float(st.obj_mean) - want_qd / n - float(a.qd_score_offset)) > tol and abs(float(st.obj_mean) - float(np.mean(objs))) > tol:
+        return "stats.obj_mean = %r but the contents give %r" % (float(st.obj_mean), float(np.mean(objs)))
+    if be is None or float(be["objective"]) != float(np.max(objs)):
+        return "best_elite has objective %r but the largest stored objective is %r" % (None if be is None else float(be["objective"]), float(np.max(objs)))
+    k = int(be["index"])
+    pos = [j for j in range(n) if int(d["index"][j]) == k]
+    if not pos or not all(np.array_equal(np.asarray(be[f]), np.asarray(d[f][pos[0]])) for f in ("solution", "measures")) or float(d["objective"][pos[0]]) != float(be["objective"]):
+        return "best_elite (index %d) is not the entry stored at that index" % k
+    return None
+
+
 def run_impl(case):
     """Runs the history on the real ProximityArchive. Returns a list of trace entries:
        {"op", "pre": rows, "cands": [[id, objF, measF, dists, near]], "out": ..., "post": rows, "len", "cap"}"""
@@ -170,6 +208,7 @@ def run_impl(case):
         return {"init": [err_code(e)], "trace": []}
     trace = []
     rows = rows_of(a, cfg)
+    hist_scale = 0.0
     for op in case["ops"]:
         ent = {"op": op, "pre": rows}
         pre_meas = [r[1][3] for r in rows]
@@ -251,6 +290,9 @@ def run_impl(case):
             raise AssertionError(kind)
         rows = rows_of(a, cfg)
         ent["post"] = rows
+        if kind in ("add", "add_single") and not op[1]:
+            hist_scale += sum(abs(float(cast(cfg, c[1]))) for c in (op[2] if kind == "add" else [op[2]]))
+        ent["stats_problem"] = stats_problem(a, hist_scale)
         ent["len"] = len(a)
         ent["cap"] = int(a.capacity)
         ent["empty"] = bool(a.empty)
@@ -352,6 +394,9 @@ def compare(case, driver, res=None):
         return None
     mout = mout[1:]
     assert len(mout) == len(mops), (len(mout), len(mops))
+    for t, ent in enumerate(trace):
+        if ent.get("stats_problem"):
+            return {"step": t, "what": "statistics / best_elite vs contents", "model": None, "impl": ent["stats_problem"]}
     for mo, mop, (t, role) in zip(mout, mops, owner):
         ent = trace[t]
         op, out = ent["op"], ent["out"]
@@ -469,6 +514,8 @@ def oracle(case, res=None):
             return tag + "torn row in data(): %s" % [r for r in post if isinstance(r[1][2], list)][:2], {"kind": "torn-row"}
         if ent["cap"] < ent["len"]:
             return tag + "capacity %d < len %d" % (ent["cap"], ent["len"]), {"kind": "capacity"}
+        if ent.get("stats_problem"):
+            return tag + ent["stats_problem"], {"kind": "stats-vs-contents"}
         if op[0] in ("add", "add_single"):
             if out[0] != 0:
                 if op[1] and cfg["lc"] and out[0] == 1 and post == pre:
@@ -677,7 +724,7 @@ def gen_case(rng, tier, force=None):
             for c in cands:
                 pool.append(c[2])
             noobj = (not cfg["lc"] and rng.random() < 0.25) or (cfg["lc"] and rng.random() < 0.04)
-            ops.append(["add", noobj, cands, rng.choice(["list", "nd", "f64"])])
+            ops.append(["add", noobj, cands, rng.choice(["list", "nd", "f64", "wide"])])
         elif r < 0.66:
             m = gen_point(rng, cfg, pool)
             pool.append(m)
